@@ -80,6 +80,9 @@ type Contract struct {
 
 // SiteAssert: `before call <callee>#k assert <expr>`
 type SiteAssert struct {
+	// Assume: `after call <callee>[#k] assume <expr>` -- a stated assumption about what the
+	// environment returned at that site (res0, res1, ...: the results); reported in the evidence
+	Assume bool
 	Callee   string
 	Ord      int  // 0 = every site
 	Optional bool // may match no site at all (policy assertion)
@@ -88,7 +91,7 @@ type SiteAssert struct {
 
 var directives = map[string]bool{
 	"requires": true, "ensures": true, "let": true, "modifies": true, "nopanic": true, "loop": true,
-	"mode": true, "trusted": true, "before": true, "some": true,
+	"mode": true, "trusted": true, "before": true, "after": true, "some": true,
 }
 
 func parseContracts(src, pkgName, file string) ([]*Contract, map[string]*define, error) {
@@ -276,6 +279,23 @@ func parseContracts(src, pkgName, file string) ([]*Contract, map[string]*define,
 				}
 			}
 			cur.Asserts = append(cur.Asserts, SiteAssert{Callee: site, Ord: ord, Optional: optional, Cl: Clause{Text: strings.TrimSpace(rest[k+8:]), Line: line, Tag: curTag}})
+			c := cur
+			lastAppend = func(s string) { c.Asserts[len(c.Asserts)-1].Cl.Text += " " + s }
+		case "after":
+			// after call <callee>[#k] assume <expr>
+			k := strings.Index(rest, " assume ")
+			if !strings.HasPrefix(rest, "call ") || k < 0 {
+				return nil, nil, fmt.Errorf("%s:%d: after call <callee>[#k] assume <expr>", file, line)
+			}
+			site := strings.TrimSpace(rest[5:k])
+			ord := 0
+			if h := strings.LastIndex(site, "#"); h >= 0 {
+				if n, err := strconv.Atoi(site[h+1:]); err == nil {
+					ord = n
+					site = site[:h]
+				}
+			}
+			cur.Asserts = append(cur.Asserts, SiteAssert{Assume: true, Callee: site, Ord: ord, Cl: Clause{Text: strings.TrimSpace(rest[k+8:]), Line: line, Tag: curTag}})
 			c := cur
 			lastAppend = func(s string) { c.Asserts[len(c.Asserts)-1].Cl.Text += " " + s }
 		default:
